@@ -113,7 +113,11 @@ namespace occa {
     if (offset + bytes <= size) {
       return slice(offset, bytes);
     } else {
-      resize(reserved + alignedBytes);
+      /*
+      The free space is fragmented. Re-make the allocation, which packs
+      the reservations, even if the size happens to stay the same
+      */
+      reallocate(reserved + alignedBytes);
       return slice(reserved, bytes);
     }
   }
@@ -125,6 +129,11 @@ namespace occa {
                reserved <= bytes);
 
     if (size == bytes) return; /*Nothing to do*/
+
+    reallocate(bytes);
+  }
+
+  void modeMemoryPool_t::reallocate(const udim_t bytes) {
 
     const udim_t alignedBytes = ((bytes + alignment - 1) / alignment) * alignment;
 
